@@ -315,6 +315,8 @@ pub struct SchedCtl {
     pub reserved_probe: RwLock<Option<Arc<dyn Fn() -> (usize, usize) + Send + Sync>>>,
     pub reserved_over_limit: Mutex<Vec<String>>,
     pub reserved_samples: AtomicU64,
+    /// extra pause (us) at the range-scan entry where the epoch guard is re-pinned (every 256th entry)
+    pub repin_delay_us: AtomicU64,
 }
 
 impl SchedCtl {
@@ -331,6 +333,7 @@ impl SchedCtl {
             reserved_probe: RwLock::new(None),
             reserved_over_limit: Mutex::new(Vec::new()),
             reserved_samples: AtomicU64::new(0),
+            repin_delay_us: AtomicU64::new(0),
         }
     }
 
@@ -531,7 +534,13 @@ impl Monitor for Hub {
             mon.on_fsync_done(ok);
         }
     }
-    fn sched(&self, point: &'static str, _a: u64, b: u64) {
+    fn sched(&self, point: &'static str, a: u64, b: u64) {
+        if point == "range.entry" && a % 256 == 255 {
+            let us = self.sched.read().as_ref().map(|c| c.repin_delay_us.load(Ordering::Relaxed)).unwrap_or(0);
+            if us > 0 {
+                std::thread::sleep(Duration::from_micros(us));
+            }
+        }
         // flush()'s retry loop sleeps up to 1 ms per round and only goes round again while a worker reports
         // retries (a reader holding an extent, a successor not durable yet): 30000 rounds of one call on a
         // device that answers is a flush that will never return
